@@ -42,7 +42,7 @@ ASSUMPTIONS = [
 ]
 RULE = ("generated Markdown documents (headings, prose of 0-60 lines, lists, quotes, non-recipe fences; 1-4 recipe blocks, "
         "indented with spaces/tabs or fenced with ```/~~~ of several lengths and indents, recipe/new-recipe, in top level / "
-        "quote / bullet and ordered list / on the marker line / quote in list / list in quote / nested list; blank lines "
+        "quote / bullet and ordered list / on the marker line / quote in list / list in quote / nested list; files starting with 1-3 empty lines and / or a byte-order mark; blank lines "
         "and multi-line statements inside blocks; missing final newline / closing fence) with ONE injected fault "
         "(redefinition, proportion of unknown name, stray token, unclosed parenthesis) at a statement position of a "
         "block, written with LF, CRLF and mixed line ends; a case is non-trivial when the fault is not on line 1; "
@@ -247,6 +247,7 @@ def doc_cases(rng: random.Random, n_docs: int, faults_per_doc: int, exhaustive: 
                     tags.append("tab-indent")
                 if not d.final_newline:
                     tags.append("no-final-newline")
+                tags.append("file-start:" + d.lead)
                 cases.append(make_case(text, f, tags))
     return cases
 
